@@ -77,6 +77,21 @@ def hand_built():
     return d
 
 
+def merge_collision_keys(sd):
+    """collision groups (values Python's == identifies although they differ in kind: False/0, 1/True/1.0, Identifier /
+    QualifiedName of one URI) that arise when the records of one identifier and kind are merged: which member of such
+    a group a Python set keeps depends on insertion order, so it is content neither of unified() nor of the document
+    read back (the case C01 excludes as well)"""
+    groups = {}
+    for b, recs in sd.items():
+        for (t, i, attrs), n in recs:
+            if i is None:
+                continue
+            for (a, v), m in attrs:
+                groups.setdefault((b, t, i, a, common._py_class(v)), set()).add(v)
+    return {k for k, vs in groups.items() if len(vs) > 1}
+
+
 def as_set(s):
     return {b: frozenset((t, i, frozenset(a for a, n in attrs)) for (t, i, attrs), m in recs) for b, recs in s.items()}
 
@@ -114,16 +129,17 @@ def main():
             outside[why] += 1
             continue
         n += 1
-        want = as_set(common.strict(u))
+        ck = merge_collision_keys(common.strict(d))
+        want = as_set(common.drop_collisions(common.strict(u), ck))
         distinct.add(repr(want))
         if len(samples) < 2:
             samples.append({"case": i, "provn": common.describe(d)[:500]})
         try:
             text = d.serialize(format="rdf")
             d2 = ProvDocument.deserialize(content=text, format="rdf")
-            got = as_set(common.strict(d2))
-            cls = None if got == want else common.classify(common.strict(u), common.strict(d2))
-            detail = common.diff_strict(common.strict(u), common.strict(d2))[:2] if cls else None
+            got = as_set(common.drop_collisions(common.strict(d2), ck))
+            cls = None if got == want else common.classify(common.drop_collisions(common.strict(u), ck), common.drop_collisions(common.strict(d2), ck))
+            detail = common.diff_strict(common.drop_collisions(common.strict(u), ck), common.drop_collisions(common.strict(d2), ck))[:2] if cls else None
         except Exception as e:  # noqa
             cls, detail, text = common.exc_class(e), [repr(e)[:300]], ""
         if cls:
